@@ -1,6 +1,8 @@
 package main
 
 import (
+	"fmt"
+	"os"
 	"strings"
 
 	"golang.org/x/tools/go/ssa"
@@ -232,6 +234,11 @@ func checkC03(c *Ctx) {
 				// the link checks may instead live in every ruleset's VoteRule
 				if c03GateInAllVoteRules(c, g.id) {
 					ok = true
+				}
+			}
+			if os.Getenv("HSVERIF_DEBUG") != "" && !ok {
+				for _, e := range exits {
+					fmt.Println("DEBUG C03.5", g.id, p.Pos(e.Ret.Pos()), join(e.Facts.Sorted()))
 				}
 			}
 			c.Check(ok, "C03.5/"+g.id, "Voter.Verify", p.FuncPos(voterVerify),
